@@ -176,7 +176,8 @@ func (g *generatorv2) funcMap(
 }
 
 func (g *generatorv2) posInfo(n ast.Node) *PosInfo {
-	pos := g.fset.Position(n.Pos())
+	// The position in the file itself (see generator.posInfo).
+	pos := g.fset.PositionFor(n.Pos(), false)
 	posInfo := &PosInfo{
 		File:   filepath.Join(g.pkg.Path(), filepath.Base(pos.Filename)),
 		Line:   pos.Line,
